@@ -147,6 +147,13 @@ impl Parser<'_> {
         self.input.nth(n)
     }
 
+    /// Look ahead without spending fuel: callers scan with an index of their own and
+    /// stop at the end of the input, so they cannot spin, and a long scan must not make
+    /// the following `peek`/`at` report end of file.
+    pub fn lookahead(&self, n: usize) -> TokenKind {
+        self.input.nth(n)
+    }
+
     pub fn eof(&mut self) -> bool {
         self.input.eof()
     }
